@@ -4,7 +4,9 @@ mod aspsem;
 mod dom;
 mod hteval;
 mod simp;
+mod tff;
 mod trans;
+mod verify;
 
 use std::sync::Mutex;
 
@@ -54,6 +56,32 @@ fn run_simp(deep: bool) -> (String, Vec<trans::Failure>) {
     (format!("\"formulas\": {}, \"portfolio_strategy_runs\": {}, \"input_output_pairs\": {}, \"pairs_skipped_not_exactly_evaluable\": {}, \"pair_interpretation_evaluations\": {}", st.formulas, st.runs, st.compared, st.skipped_inexact, st.evaluations), fails)
 }
 
+fn run_strong(deep: bool) -> (String, Vec<trans::Failure>) {
+    let pairs = verify::pairs(deep);
+    let n_interp = if deep { 60 } else { 24 };
+    let fails = Mutex::new(Vec::new());
+    let totals = Mutex::new((0usize, 0usize, 0usize, 0usize));
+    par_for(&pairs, |(l, r, flags)| {
+        let mut st = verify::VStats { pairs: 0, runs: 0, problems: 0, evaluations: 0 };
+        let mut fl = Vec::new();
+        verify::check_pair(l, r, flags, n_interp, &mut st, &mut fl);
+        let mut t = totals.lock().unwrap();
+        t.0 += st.pairs; t.1 += st.runs; t.2 += st.problems; t.3 += st.evaluations;
+        fails.lock().unwrap().extend(fl);
+    });
+    let t = totals.lock().unwrap();
+    let mut fails = fails.into_inner().unwrap();
+    fails.sort_by(|a, b| (a.property, &a.input).cmp(&(b.property, &b.input)));
+    (format!("\"program_pairs\": {}, \"anthem_verify_runs\": {}, \"problems_read\": {}, \"run_interpretation_pairs\": {}, \"interpretations_per_pair\": {}", t.0, t.1, t.2, t.3, n_interp), fails)
+}
+
+fn run_gamma(deep: bool) -> (String, Vec<trans::Failure>) {
+    let mut st = simp::SimpStats { formulas: 0, compared: 0, skipped_inexact: 0, evaluations: 0, runs: 0 };
+    let mut fails = Vec::new();
+    simp::check_gamma(deep, &mut st, &mut fails);
+    (format!("\"formulas\": {}, \"input_output_pairs\": {}, \"pairs_skipped_not_exactly_evaluable\": {}, \"pair_interpretation_evaluations\": {}", st.formulas, st.compared, st.skipped_inexact, st.evaluations), fails)
+}
+
 fn run_trans(deep: bool) -> (String, Vec<trans::Failure>) {
     let corpus = trans::corpus(deep);
     let n_interp = if deep { 160 } else { 40 };
@@ -91,6 +119,8 @@ fn main() {
     let (stats, fails) = match check.as_str() {
         "trans" => run_trans(deep),
         "simp" => run_simp(deep),
+        "strong" => run_strong(deep),
+        "gamma" => run_gamma(deep),
         _ => { eprintln!("usage: bounded trans [--deep]"); std::process::exit(2); }
     };
     let harness_broken = fails.iter().any(|f| f.property == "harness");
